@@ -52,14 +52,16 @@ ToSet(s) == {s[i] : i \in DOMAIN s}
 SP == 32   TAB == 9   COMMA == 44   QUOTE == 34   COLON == 58   AT == 64   DOT == 46
 NULLCH == 9249            \* U+2421, the "delete the value" marker (nullValue)
 
-\* strings.ToLower on the characters of the modelled universe (ASCII + U+00C9)
-Lower(c) == IF c >= 65 /\ c <= 90 THEN c + 32 ELSE IF c = 201 THEN 233 ELSE c
+\* strings.ToLower on the characters of the modelled universe (ASCII, U+00C9, U+00DC; CJK has no case)
+Lower(c) == IF c >= 65 /\ c <= 90 THEN c + 32 ELSE IF c = 201 THEN 233 ELSE IF c = 220 THEN 252 ELSE c
 LowerS(s) == [i \in DOMAIN s |-> Lower(s[i])]
 
 IsAsciiLower(c) == c >= 97 /\ c <= 122
 IsAsciiUpper(c) == c >= 65 /\ c <= 90
 IsDigit(c)  == c >= 48 /\ c <= 57                                  \* \pN / unicode.IsDigit on the universe
-IsLetter(c) == IsAsciiLower(c) \/ IsAsciiUpper(c) \/ c = 233 \/ c = 201   \* \pL / unicode.IsLetter
+IsLetter(c) == \/ IsAsciiLower(c) \/ IsAsciiUpper(c)                 \* \pL / unicode.IsLetter on the universe:
+               \/ c \in {233, 201, 252, 220}                          \* e-acute, u-umlaut (2-byte runes, both cases)
+               \/ (c >= 19968 /\ c <= 40959)                           \* CJK unified ideographs (3-byte runes, no case)
 IsLN(c)     == IsLetter(c) \/ IsDigit(c)
 IsWordCh(c) == IsAsciiLower(c) \/ IsAsciiUpper(c) \/ IsDigit(c) \/ c = 95   \* \w
 IsBodyCh(c) == IsLN(c) \/ c \in {45, 95, 43, 46, 33, 63, 35, 64}   \* [-_+.!?#@\pL\pN]
@@ -339,6 +341,13 @@ SliceDeltaAdded(rold, rnew) ==
   ELSE IF rold = <<>> THEN rnew
   ELSE IF rnew = <<>> THEN <<>>
   ELSE DeltaAddedLoop(SortStrs(rold), SortStrs(rnew))
+
+\* tags given at creation time: {acc user="new" tags} (user.go:72-81) and {sub topic="new"|"nch" set.tags}
+\* (initTopicNewGrp, init_topic.go:581-585, 591, 602).  result = [code, tags]: refused, or the tag list stored
+CreateTags(raw, imm, maxCount) ==
+  LET n == NormalizeTags(raw, maxCount) IN
+    IF ~n.nil /\ n.tags # <<>> /\ ~RestrictedEqual(n.tags, <<>>, imm) THEN [code |-> "denied", tags |-> <<>>]
+    ELSE [code |-> "ok", tags |-> n.tags]
 
 \* replySetTags (topic.go:2802-2857) for the owner of a `me` / group topic.
 \* result = [code, tags, stored]: reply class, the topic's tags afterwards, whether the store was updated
